@@ -1,7 +1,7 @@
 (* family 14: CFDP File Data PDU. *)
 From Coq Require Import ZArith List Bool.
-From SP Require Import Base.Result Base.Bytes Run.Marshal Model.PduHeader Run.DispHdr
-  Model.FileData Spec.PduHeaderSpec Spec.FileDataSpec.
+From SP Require Import Base.Result Base.Bytes Run.Marshal Model.PduHeader Model.PduHeaderOps Run.DispHdr
+  Model.FileData Model.FileDataOps Spec.PduHeaderSpec Spec.FileDataSpec.
 Import ListNotations.
 Open Scope Z_scope.
 
@@ -40,6 +40,49 @@ Fixpoint fd_apply (p : FileDataPdu) (ops : list (list Z)) : res FileDataPdu :=
   | _ :: r => fd_apply p r
   end.
 
+(* ---- operation histories (ops 1407 / 1408): codes 1..16 are the header operations of family 12
+   applied to p.pdu_header, 20.. the PDU's own ---- *)
+Definition fd_hop_of (l : list Z) : res fd_hop :=
+  match l with
+  | 20 :: _ :: d => Ok (FSetData d)
+  | 21 :: _ => Ok (FSetMeta None)
+  | 22 :: st :: md => Ok (FSetMeta (Some {| sm_state := st; sm_data := md |}))
+  | 23 :: x => Ok (FExtendAssign x)
+  | 24 :: _ => Ok FReassignData
+  | 25 :: _ => Ok FReassignMeta
+  | 26 :: md => Ok (FMetaDataInplace md)
+  | 27 :: st :: _ => Ok (FMetaStateInplace st)
+  | 28 :: v :: _ => Ok (FParamsOffset v)
+  | 29 :: d => Ok (FParamsData d)
+  | 30 :: _ => Ok FPack
+  | 31 :: n :: _ => Ok (FMaxSeg n)
+  | _ => do o <- hdr_op_of l; Ok (FHdr o)
+  end.
+
+(* every view of a PDU: the header's (as family 12), offset, file data, segment metadata *)
+Definition fd_state (p : FileDataPdu) : args :=
+  [hdr_state (fd_hdr p); hdr_id_octets (fd_hdr p); [fp_offset (fd_params p)]; fp_data (fd_params p);
+   meta_enc (fp_meta (fd_params p))].
+
+Definition params_view (q : FdParams) : args := [[fp_offset q]; fp_data q; meta_enc (fp_meta q)].
+
+(* after every operation: [0] or [1; class], all views, what the call returned; at the end the
+   parameter object (the caller's, which the PDU aliases) *)
+Fixpoint fd_run (w : fworld) (ops : list (list Z)) : args :=
+  match ops with
+  | [] => params_view (fd_params (fw_pdu w)) ++ [conf_ids (fw_caller w); conf_flags (fw_caller w)]
+  | l :: r =>
+      match fd_hop_of l with
+      | Err e => [1; canon_err e] :: fd_state (fw_pdu w) ++ [] :: fd_run w r
+      | Ok o =>
+          let '(w', out) := fw_step w o in
+          match out with
+          | Ok v => [0] :: fd_state (fw_pdu w') ++ v :: fd_run w' r
+          | Err e => [1; canon_err e] :: fd_state (fw_pdu w') ++ [] :: fd_run w' r
+          end
+      end
+  end.
+
 Definition run_filedata (op : Z) (a : args) : args :=
   match op with
   (* FileDataPdu(conf, params): fields, then the caller's PduConfig afterwards *)
@@ -63,6 +106,20 @@ Definition run_filedata (op : Z) (a : args) : args :=
   (* constructor, then a history of setter calls: fields, packet_len, pack, pack again *)
   | 1406 => ret (fun p => fd_fields p ++ [[fd_packet_len p]; pack_res (fd_pack p); pack_res (fd_pack p)])
               (do r <- fd_of_args a; fd_apply (fst r) (skipn 5 a))
+  (* p = FileDataPdu(conf, params): views of p, the caller's PduConfig after construction; a
+     history of operations; the caller's PduConfig and parameter object at the end *)
+  | 1407 => match (do c <- conf_of_kind (int 5 0 a) (lst 0 a) (lst 1 a);
+                   do r <- fd_new c (params_of_args (lst 2 a) (lst 3 a) (lst 4 a)); Ok r) with
+            | Ok (p, c) => [0] :: fd_state p ++ [conf_ids c; conf_flags c] ++ fd_run (fw_init p c) (skipn 6 a)
+            | Err e => ret_err e
+            end
+  (* p = FileDataPdu.unpack(data) (bytes, or a bytearray that is overwritten afterwards: [1] =
+     nothing of p changed); a history of operations *)
+  | 1408 => match fd_unpack (lst 0 a) with
+            | Ok p => [0] :: [1] :: fd_state p ++ fd_run (fw_init p (h_conf (fd_hdr p))) (skipn 2 a)
+                      ++ fd_state p                            (* the same octets decoded once more at the end *)
+            | Err e => ret_err e
+            end
   (* Spec side (independent oracle): layout of (conf fields, params) *)
   | 1450 => [[0]; fd_layout (hdr_conf_raw (lst 0 a) (lst 1 a)) (params_of_args (lst 2 a) (lst 3 a) (lst 4 a))]
   | _ => [[1; 97]]
